@@ -263,6 +263,15 @@ func accessPath(v ssa.Value) (root ssa.Value, sels []Sel) {
 			v = x.X
 		case *ssa.SliceToArrayPointer:
 			v = x.X
+		case *ssa.Alloc:
+			// a struct parameter / value receiver spilled to a local: the root is the parameter
+			if s := singleStore(x); s != nil {
+				switch strip(s).(type) {
+				case *ssa.Parameter, *ssa.FreeVar:
+					v = strip(s)
+				}
+			}
+			goto done
 		default:
 			goto done
 		}
